@@ -85,7 +85,83 @@ func wrapErr(parent Value) Value {
 	return &IfaceVal{V: &ErrVal{Parent: parent}}
 }
 
+// deepEq is reflect.DeepEqual on engine values: pointers are followed, slices compared element-wise (byte slices as
+// byte strings: nil and empty are not distinguished), times by (seconds, nanoseconds).
+func (e *Engine) deepEq(a, b Value, depth int) *T {
+	if depth > 12 {
+		panic(inconclusive{"reflect.DeepEqual: depth"})
+	}
+	if ia, ok := a.(*IfaceVal); ok {
+		ib, ok2 := b.(*IfaceVal)
+		if !ok2 || ia == nil || ib == nil {
+			return BoolConst(isNilVal(a) && isNilVal(b))
+		}
+		if ia.T != nil && ib.T != nil && !types.Identical(ia.T, ib.T) {
+			return tFalse
+		}
+		return e.deepEq(ia.V, ib.V, depth+1)
+	}
+	switch x := a.(type) {
+	case *PtrVal:
+		y, ok := b.(*PtrVal)
+		if !ok || x == nil || y == nil {
+			return BoolConst(isNilVal(a) && isNilVal(b))
+		}
+		if x.L == y.L {
+			return tTrue
+		}
+		return e.deepEq(load(x.L), load(y.L), depth+1)
+	case *StructVal:
+		y, ok := b.(*StructVal)
+		if !ok || len(x.F) != len(y.F) {
+			return tFalse
+		}
+		r := tTrue
+		for i := range x.F {
+			r = And(r, e.deepEq(x.F[i], y.F[i], depth+1))
+		}
+		return r
+	case *SliceVal:
+		if y, ok := b.(*SliceVal); ok {
+			if x == nil || y == nil {
+				return BoolConst((x == nil || x.Len == 0) && (y == nil || y.Len == 0))
+			}
+			if x.Len != y.Len {
+				return tFalse
+			}
+			r := tTrue
+			for i := 0; i < x.Len; i++ {
+				r = And(r, e.deepEq(load(x.Arr.Elems[x.Off+i]), load(y.Arr.Elems[y.Off+i]), depth+1))
+			}
+			return r
+		}
+		if t, ok := b.(*T); ok && t.Sort.K == SStr {
+			return Eq(toSeq(a), t)
+		}
+		if b == nil {
+			return BoolConst(x == nil || x.Len == 0)
+		}
+	case *T:
+		if y, ok := b.(*T); ok {
+			return Eq(x, y)
+		}
+		if x.Sort.K == SStr {
+			return Eq(x, toSeq(b))
+		}
+	case nil:
+		if t, ok := b.(*T); ok && t.Sort.K == SStr {
+			return Eq(t, StrConst(""))
+		}
+		if sv, ok := b.(*SliceVal); ok {
+			return BoolConst(sv == nil || sv.Len == 0)
+		}
+		return BoolConst(isNilVal(b))
+	}
+	return e.valueEq(a, b)
+}
+
 func init() {
+	reg("reflect.DeepEqual", func(e *Engine, fn *ssa.Function, a []Value) Value { return e.deepEq(a[0], a[1], 0) })
 	// reflect.TypeOf: a type identity that only supports == (dynamic type name boxed as an interface value)
 	reg("reflect.TypeOf", func(e *Engine, fn *ssa.Function, a []Value) Value {
 		iv, _ := a[0].(*IfaceVal)
